@@ -368,6 +368,20 @@ def inject_all(cfg):
                             c["connections"][k]["allow_multi"] = True
                             yield "count-not-dividing", f"connection {k} {side}_range grown", c
                     break
+        # a fan-out (one single node on one side, several selected on the other) without `allow_multi`
+        if con.get("allow_multi"):
+            for side in ("src", "dst"):
+                other = "dst" if side == "src" else "src"
+                node = next((x for x in cfg["routers"] + cfg["endpoints"] if x["name"] == con[side]), None)
+                if node is None or "array" in node or "tree" in node:
+                    continue
+                if any(side + sfx in con for sfx in ("_idx", "_range", "_lvl")):
+                    continue
+                n_other = _sel_count(con, other)
+                if other + "_range" in con and n_other is not None and n_other >= 2:
+                    c = copy.deepcopy(cfg)
+                    c["connections"][k].pop("allow_multi")
+                    yield "count-mismatch", f"connection {k} fan-out without allow_multi", c
         c = copy.deepcopy(cfg)
         c["connections"][k]["bidirectional"] = False
         yield "unidirectional", f"connection {k}", c
